@@ -514,4 +514,69 @@ def stepAfter (s : Step) : List JOp → Step
   | .setStep t :: rest => stepAfter t rest
   | .request _ _ :: rest => stepAfter s rest
 
+/-! ## The default inputs of the discipline and the point of a request
+
+`Discipline.execute(input_data)` / `linearize(input_data)` / `check_jacobian(input_data)` complete the passed input
+data with the DEFAULT inputs (`io.input_grammar.defaults`): the point of a request is defined by the passed values
+and by the defaults.  `DisciplineJacApprox.compute_approx_jac` runs the approximator inside
+`__hold_other_inputs(input_names)`: on entry `defaults.update(held_values)` (the current values of the inputs that
+are not differentiated), on exit every held name gets its saved original default back, one by one.
+`Discipline.check_jacobian(auto_set_step=True)` first calls `auto_set_step`, which executes the discipline at
+perturbed default inputs (the local data are left at the last of these points), *then* `linearize(input_data)`,
+then the approximation at the local data. -/
+
+/-- Input data completed by the default inputs: the components `given` take the passed values (read from `v`, a
+    vector over all the input components of which only the given ones matter), the others the defaults. -/
+def complete (defaults : Vec) (given : List Nat) (v : Vec) : Vec :=
+  overwriteL defaults given (pick given v)
+
+/-- The input components that are not differentiated (`name not in input_names`; the harness disciplines have no
+    input that is also an output). -/
+def heldOf (n : Nat) (fic : List Nat) : List Nat := (List.range n).filter (fun g => !fic.contains g)
+
+/-- `__hold_other_inputs`, entry: `defaults.update(held_values)`. -/
+def holdEnter (defaults data : Vec) (held : List Nat) : Vec := overwriteL defaults held (pick held data)
+
+/-- `__hold_other_inputs`, exit: `defaults[name] = original_values[name]` for every held name. -/
+def holdExit (defaults saved : Vec) (held : List Nat) : Vec := overwriteL defaults held (pick held saved)
+
+/-- The input side of a discipline: its default inputs and its local data (flat, all input components). -/
+structure DState where
+  defaults : Vec
+  data : Vec
+  deriving Repr
+
+inductive DOp where
+  /-- the execution at `input_data` (names `given` passed, values read from `v`) -/
+  | execute (given : List Nat) (v : Vec)
+  /-- `compute_approx_jac` at the local data, inside `__hold_other_inputs` -/
+  | approx (r : Request)
+  /-- `auto_set_step`: executions at perturbed default inputs, the local data are left at `last` -/
+  | autoStep (last : Vec)
+
+/-- One operation on a discipline with step `s` in force: new state, returned blocks. -/
+def DState.op (sch : Scheme) (par : Bool) (D : Disc) (s : Step) (st : DState) : DOp → DState × Option (List (List Vec))
+  | .execute given v => ({ st with data := complete st.defaults given v }, none)
+  | .autoStep last => ({ st with data := last }, none)
+  | .approx r =>
+    let held := heldOf st.defaults.length (compsOf D.inSizes r.ins)
+    let inside := holdEnter st.defaults st.data held
+    -- inside the context the adapter evaluates `f (overwriteL inside fic v)`: see `hold_gives_current_point`
+    let ans := if reqValid D s r then some (reqBlocks sch par D st.data s r) else none
+    ({ st with defaults := holdExit inside st.defaults held }, ans)
+
+def DState.run (sch : Scheme) (par : Bool) (D : Disc) (s : Step) (st : DState) : List DOp → DState × List (Option (List (List Vec)))
+  | [] => (st, [])
+  | o :: rest =>
+    let r1 := st.op sch par D s o
+    let r2 := DState.run sch par D s r1.1 rest
+    (r2.1, r1.2 :: r2.2)
+
+/-- `linearize(input_data)` in an approximation mode. -/
+def linearizeOps (given : List Nat) (v : Vec) (r : Request) : List DOp := [.execute given v, .approx r]
+
+/-- `check_jacobian(input_data, auto_set_step=auto)`: the reference Jacobian. -/
+def checkOps (auto : Bool) (last : Vec) (given : List Nat) (v : Vec) (r : Request) : List DOp :=
+  (if auto then [DOp.autoStep last] else []) ++ linearizeOps given v r
+
 end GV.C16
